@@ -1,5 +1,5 @@
 """C06 - Boolean operators follow FHIRPath three-valued logic for every operand form."""
-from lib import driver as D, machine as M
+from lib import driver as D, machine as M, nodetrace as NT
 
 MUTANTS = ["andFalseNeedsBoth", "orTrueNeedsBoth", "xorEmptyIsFalse", "impliesEmptyIsTrue"]
 
@@ -28,6 +28,10 @@ def run(ctx):
     keys = [(o["cs"]["ctx"], o["cs"]["op"], o["cs"]["l"]["val"], o["cs"]["r"]["val"], o["out"]["k"]) for o in obs]
     # programs of the whole abstract machine whose last step is one of this property's operations (lib/machine.py)
     verdicts = M.extend(ctx, verdicts, by_id)
+    # node-level trace validation (spec/FPNodeTrace.tla): every Boolean node inside every program above and inside the
+    # repository's own tests is a checked transition of the stack machine
+    verdicts = NT.extend(ctx, verdicts, by_id, reruns=[
+        (binary, ["run", ctx.path("cases.ndjson"), ctx.path("obs_traced.ndjson")])])
     return D.finish(ctx, verdicts, by_id, evaluations=3 * len(obs),
                     rule="exhaustive: every (context, operator, left form, right form) with form = value class x source kind "
                          "(28 expressible forms: true/false/empty/non-Boolean/multi-item/multi-item-of-Booleans x literal/element/computed/variable/function result; a multi-item literal cannot be written); distinct = (context, operator, value classes, outcome kind)",
